@@ -1393,7 +1393,8 @@ def extract_from_code(code, gettext_functions):
                 child = getattr(node, field, None)
                 if isinstance(child, list):
                     for elem in child:
-                        children.append(elem)
+                        if isinstance(elem, ast.AST):
+                            children.append(elem)
                 elif isinstance(child, ast.AST):
                     children.append(child)
             for child in children:
